@@ -134,6 +134,8 @@ def generate(rng, tier):
         ('replace-titled-searchpath', ['file %s file %s' % (hx(b'sp/inc.conf'), hx(b'i = 3\n')), 'searchpath 0 ' + hx(b'sp'),
                                        'parse_buf 0 ' + hx(b't x { a = 1 }\nt x { a = 2 in q { } }\ninclude("inc.conf")\nt x { }\n'),
                                        'parse_buf 0 ' + hx(b'include("inc.conf")\nt y { }\nt y { include("inc.conf") }\n'), 'lookup 0 ' + hx(b'inc.conf')]),
+        # a call with more arguments than any stack frame could hold (the argument vector lives on the heap)
+        ('fn-many-args-small-stack!', ['stacklimit 64', 'parse_buf 0 ' + hx(b'fn(' + b'a,' * 24000 + b'b)\n'), 'parse_buf 0 ' + hx(b'sec { in x { s = y } }\n')]),
         ('null-buffer', ['parse_buf 0 -']),
         ('empty-buffer', ['parse_buf 0 .']),
     ]
